@@ -14,21 +14,31 @@
 //! g <dim> <metric> <efs> <maxlayers> <entry id> <entry layer> <ids csv>   explicit durable graph (header)
 //! gn <id> <layer> <bf16 hex> <l0;l1;…>                                     explicit node blob
 //! gload                                                                    load_all of the explicit graph
+//! wcfg … / wins / wrm / wq / wflush / wcrash <cut>   the same through `anda_db::index::Hnsw` (see wrapper.rs)
+//! recall <workload> <seed>                            re-measure one recall workload (replay only)
 //! ```
 //!
-//! * correspondence: at every query the real graph is extracted through the public API
-//!   (`node_ids` / `get_node_with`, entry point from the metadata blob the index itself serialises),
-//!   sent to the Lean model (`drv_c12`) together with the distance keys computed by the real
-//!   `DistanceMetric::compute_mixed`, and the model's answer must equal the real answer — same
-//!   ids, same order, same distance keys.  After `crash`/`gload` the loaded state is additionally
-//!   compared with the model's `load` prediction (see `store.rs`).
+//! * correspondence (model vs implementation), all through the public API:
+//!   - every query: the real graph is extracted (`node_ids` / `get_node_with`, entry point from the
+//!     metadata blob the index itself serialises through a refusing `store_metadata_with` callback),
+//!     sent to the Lean model (`drv_c12`) with the distance keys computed by the real
+//!     `DistanceMetric::compute_mixed`; the model's answer must equal the real one — same ids, same
+//!     order, same distance keys, same error;
+//!   - every `rm` / `ins`: the model's `remove` / `insertAbs` on the state before must give the state
+//!     after (entry point, max layer, version, id set, tombstones, dirty set, node lists);
+//!   - every load (`crash`, `reload`, `gload`, `wcrash`): the model's `load` on the decoded durable
+//!     objects must give the loaded state, or fail when `load_all` fails.
 //! * oracle (independent of the model and of the index internals): brute force over the harness's
-//!   own bf16-rounded copy of the live vectors: ≤ k, distinct, live, non-decreasing, reported
-//!   distance = recomputed metric (f64, tolerance `1e-3·scale + 1e-6`), `LoadedInv` after every
-//!   interrupted flush, recall@10 on the documented workloads (measured).
+//!   own bf16-rounded copy of the live vectors: <= k, distinct, live, non-decreasing, reported
+//!   distance = recomputed metric (f64, tolerance `1e-3*scale + 1e-6`); `LoadedInv` and "no id without
+//!   its blob" after every interrupted flush; durable write order; round trip identity; the orphan
+//!   sweep keeps referenced blobs; recall@10 on the documented workloads (measured).
 mod recall;
 mod util;
+mod window;
 mod world;
+#[cfg(feature = "wrapper")]
+mod wrapper;
 
 use std::collections::BTreeMap;
 use util::*;
@@ -94,13 +104,54 @@ fn gen_query(r: &mut Rng, cfg: &Cfg, stored: &BTreeMap<u64, Vec<f32>>, kind_bias
     };
     match r.below(10) {
         0 => format!("qb {k} {}", hex_bf16(&qv)),
-        1 if r.chance(1, 3) => format!("qx {k} {} {}", r.pick(&["nan", "inf", "dim"]), r.pick(&["f", "b"])),
+        1 if r.chance(1, 3) => format!("qx {} {} {}", if r.chance(1, 4) { 0 } else { k }, r.pick(&["nan", "inf", "dim", "nandim"]), r.pick(&["f", "b"])),
         _ => {
             // f32 queries need not be bf16-representable
             let qv: Vec<f32> = if r.chance(1, 2) { qv.iter().map(|x| x + (r.below(1000) as f32) * 1e-6).collect() } else { qv };
             format!("q {k} {}", hex_f32(&qv))
         }
     }
+}
+
+/// mutations for the write window of one flush: remove / re-insert the same id with another vector /
+/// insert a new id / remove another id, at callback positions around the node, ids and metadata writes
+fn gen_hooks(r: &mut Rng, cfg: &Cfg, universe: u64, kind: u64, stored: &mut BTreeMap<u64, Vec<f32>>) -> String {
+    let mut parts = vec![];
+    for _ in 0..r.range(1, 3) {
+        let pos = match r.below(6) {
+            0 => "I".to_string(),
+            1 => "M".to_string(),
+            _ => r.below(5).to_string(),
+        };
+        let pos = if r.chance(1, 2) { format!("{pos}+") } else { pos };
+        let mut ms = vec![];
+        for _ in 0..r.range(1, 3) {
+            match r.below(4) {
+                0 | 1 if !stored.is_empty() => {
+                    // remove + re-insert the same id with a DIFFERENT vector
+                    let id = *stored.keys().nth(r.usize(stored.len())).unwrap();
+                    let kk = if r.chance(1, 2) { kind } else { r.below(4) };
+                    let v = gen_vec(r, cfg.dim, kk);
+                    ms.push(format!("r{id}"));
+                    ms.push(format!("i{id}:{}", hex_bf16(&v)));
+                    stored.insert(id, v);
+                }
+                2 if !stored.is_empty() => {
+                    let id = *stored.keys().nth(r.usize(stored.len())).unwrap();
+                    ms.push(format!("r{id}"));
+                    stored.remove(&id);
+                }
+                _ => {
+                    let id = r.below(universe);
+                    let v = gen_vec(r, cfg.dim, kind);
+                    ms.push(format!("i{id}:{}", hex_bf16(&v)));
+                    stored.entry(id).or_insert(v);
+                }
+            }
+        }
+        parts.push(format!("{pos}={}", ms.join("/")));
+    }
+    parts.join(",")
 }
 
 /// history case: inserts / removes / re-inserts, queries, flushes, interrupted flushes
@@ -129,8 +180,35 @@ fn gen_history(r: &mut Rng, big: bool) -> Vec<String> {
             stored.remove(&id);
         } else if c < 90 {
             ops.push(gen_query(r, &cfg, &stored, kind));
-        } else if c < 94 {
+        } else if c < 92 {
             ops.push("flush".into());
+        } else if c < 95 {
+            // a flush whose write callbacks mutate the index, then queries, then a quiescent flush
+            if crashed {
+                ops.push("reindex".into());
+                crashed = false;
+            }
+            let hooks = gen_hooks(r, &cfg, universe, kind, &mut stored);
+            if r.chance(1, 5) {
+                ops.push(format!("crashw {} {hooks}", r.below(1000)));
+                crashed = true;
+            } else {
+                ops.push(format!("{} {hooks}", if r.chance(1, 4) { "flushl" } else { "flushw" }));
+                for _ in 0..r.below(3) {
+                    ops.push(gen_query(r, &cfg, &stored, kind));
+                }
+                if r.chance(1, 3) {
+                    let hooks = gen_hooks(r, &cfg, universe, kind, &mut stored);
+                    ops.push(format!("flushw {hooks}"));
+                }
+                ops.push("flush".into());
+                if r.chance(1, 2) {
+                    ops.push("reload".into());
+                }
+                for _ in 0..r.below(3) {
+                    ops.push(gen_query(r, &cfg, &stored, kind));
+                }
+            }
         } else if c < 98 {
             if crashed {
                 ops.push("reindex".into());
@@ -190,6 +268,18 @@ fn gen_graph(r: &mut Rng) -> Vec<String> {
             .collect();
         blobs.push(format!("gn {id} {layer} {} {}", hex_bf16(&gen_vec(r, dim, kind)), lists.join(";")));
     }
+    if r.chance(1, 10) && !blobs.is_empty() {
+        // one blob that `validate_loaded_node` must refuse (the whole load fails)
+        let i = r.usize(blobs.len());
+        let t: Vec<String> = blobs[i].split(' ').map(|x| x.to_string()).collect();
+        blobs[i] = match r.below(5) {
+            0 => format!("{} bid={}", blobs[i], universe + 1),
+            1 => format!("{} nan", blobs[i]),
+            2 => format!("gn {} {} {} {}", t[1], t[2], hex_bf16(&gen_vec(r, dim + 1, kind)), t[4]),
+            3 => format!("gn {} {} {} {}", t[1], max_layers, t[3], vec!["-"; max_layers as usize + 1].join(";")),
+            _ => format!("gn {} {} {} {};-", t[1], t[2], t[3], t[4]),
+        };
+    }
     if r.chance(1, 6) {
         // blobs that the id set does not mention (orphans: never loaded)
         let id = universe + 7;
@@ -224,6 +314,43 @@ fn gen_graph(r: &mut Rng) -> Vec<String> {
     ops
 }
 
+/// the same kind of history through `anda_db::index::Hnsw` over a real `Storage` (CAS puts, purge, orphan sweep)
+fn gen_wrapper(r: &mut Rng) -> Vec<String> {
+    let mut cfg = pick_cfg(r);
+    cfg.dim = r.range(2, 12) as usize;
+    let mut ops = vec![cfg.line().replacen("cfg", "wcfg", 1)];
+    let kind = r.below(4);
+    let universe = r.range(3, 24) as u64;
+    let mut stored: BTreeMap<u64, Vec<f32>> = BTreeMap::new();
+    for _ in 0..r.range(10, 70) {
+        let c = r.below(100);
+        if c < 42 || stored.is_empty() {
+            let id = r.below(universe);
+            let v = gen_vec(r, cfg.dim, kind);
+            ops.push(format!("wins {id} {}", hex_bf16(&v)));
+            stored.entry(id).or_insert(v);
+        } else if c < 60 {
+            let id = if r.chance(4, 5) { *stored.keys().nth(r.usize(stored.len())).unwrap() } else { r.below(universe) };
+            ops.push(format!("wrm {id}"));
+            stored.remove(&id);
+        } else if c < 82 {
+            let q = gen_query(r, &cfg, &stored, kind);
+            if let Some(rest) = q.strip_prefix("q ") {
+                ops.push(format!("wq {rest}"));
+            }
+        } else if c < 88 {
+            ops.push("wflush".into());
+        } else {
+            ops.push(format!("wcrash {}", r.below(12)));
+            let q = gen_query(r, &cfg, &stored, kind);
+            if let Some(rest) = q.strip_prefix("q ") {
+                ops.push(format!("wq {rest}"));
+            }
+        }
+    }
+    ops
+}
+
 // ------------------------------------------------------------------------------------------------
 // main
 // ------------------------------------------------------------------------------------------------
@@ -233,12 +360,13 @@ fn main() {
     let mut rep = Report::new(
         "C12",
         &args,
-        "case = one op list: either a history (cfg; 8..260 insert/remove/re-insert/query/flush/interrupted-flush+load/reindex/reload ops over \
-         seeded vectors; 4 metrics, 2 strategies, dim 2..64) or an explicit, possibly malformed durable graph loaded with load_all and then \
-         queried; every query is compared with the Lean model on the graph extracted from the real index and checked by the brute-force \
-         oracle; distinct = distinct op list; non-trivial = at least one query answered with a non-empty list",
+        "case = one op list: a history on HnswIndex (cfg; 8..260 insert/remove/re-insert/query/flush/interrupted-flush+load/reindex/reload ops over \
+         seeded vectors; 4 metrics, 2 strategies, dim 2..64), the same kind of history through anda_db::index::Hnsw over a Storage whose object store \
+         refuses mutations after a cut, or an explicit, possibly malformed durable graph loaded with load_all and then queried; every query, insert, \
+         remove and load is compared with the Lean model and checked by the independent oracle; distinct = distinct op list; non-trivial = at least \
+         one query answered with a non-empty list",
     );
-    let rt = tokio::runtime::Builder::new_current_thread().build().unwrap();
+    let rt = tokio::runtime::Builder::new_current_thread().enable_all().build().unwrap();
     let mut model = ModelProc::from_args(&args);
     if let Some(m) = model.as_mut() {
         let c = m.ask("consts");
@@ -272,6 +400,10 @@ fn main() {
             cases.push((format!("big{i}"), gen_history(&mut Rng::for_case(args.seed, i), true)));
             i += 1;
         }
+        for _ in 0..(if cfg!(feature = "wrapper") { args.budget(300, 12000) } else { 0 }) {
+            cases.push((format!("wrap{i}"), gen_wrapper(&mut Rng::for_case(args.seed, i))));
+            i += 1;
+        }
         for _ in 0..n_graph {
             cases.push((format!("graph{i}"), gen_graph(&mut Rng::for_case(args.seed, i))));
             i += 1;
@@ -289,6 +421,7 @@ fn main() {
             }
             continue;
         }
+        let (before_d, before_o) = (rep.disagreements.len(), rep.oracle_failures.len());
         let out = run_case(&rt, ops, &mut model, &mut rep, true);
         if let Some(f) = out.first_failure
             && args.replay.is_none()
@@ -303,15 +436,19 @@ fn main() {
             };
             let deterministic = f.graph_case.is_some() && still(&base, &mut model);
             let base = if deterministic { base } else { ops.clone() };
-            let small = shrink(base, |cand| cand.first().is_some_and(|l| l.starts_with("cfg ") || l.starts_with("g ")) && still(cand, &mut model), 150);
+            let small = shrink(base, |cand| cand.first().is_some_and(|l| l.starts_with("cfg ") || l.starts_with("g ") || l.starts_with("wcfg ")) && still(cand, &mut model), 150);
             let mut scratch = Report::new("C12", &args, "");
             run_case(&rt, &small, &mut model, &mut scratch, true);
             let fresh = if f.is_oracle { scratch.oracle_failures.first().cloned() } else { scratch.disagreements.first().cloned() };
-            let list = if f.is_oracle { &mut rep.oracle_failures } else { &mut rep.disagreements };
-            if let (Some(last), Some(mut fresh)) = (list.last_mut(), fresh) {
+            // one (shrunken) entry per failing case
+            let (list, before) = if f.is_oracle { (&mut rep.oracle_failures, before_o) } else { (&mut rep.disagreements, before_d) };
+            if let Some(mut fresh) = fresh {
                 fresh["case"] = json!(name);
                 fresh["deterministic_replay"] = json!(deterministic);
-                *last = fresh;
+                list.truncate(before);
+                if list.len() < 20 {
+                    list.push(fresh);
+                }
             }
         }
         if rep.samples.len() < 4 && ops.len() < 40 {
